@@ -221,11 +221,16 @@ pub fn run_child(ctx: &Ctx) -> Report {
         ]).collect();
         let form_bodies: [&[u8]; 6] = [b"", b"a=b", b"a=%zz", b"=", b"a=b&a=b&c", b"\xff=\xfe"];
         let ctypes: [&[u8]; 3] = [b"application/x-www-form-urlencoded", b"application/x-www-form-urlencoded; charset=UTF-8", b"application/json"];
-        let n_t = targets.len() as u64 * form_bodies.len() as u64 * ctypes.len() as u64 * 4 * 2;
+        // ... under every protocol version, with and without a Host header (HTTP/2 and 3 carry the host in the target)
+        let n_t = targets.len() as u64 * form_bodies.len() as u64 * ctypes.len() as u64 * 4 * 2 * 4 * 2;
         let b = base;
         let part = par_sweep(n_t, |i, st| {
             let mut x = i;
             let qc = x % 2 == 1;
+            x /= 2;
+            let version = [0u8, 10, 2, 3][(x % 4) as usize];
+            x /= 4;
+            let drop_host = x % 2 == 1;
             x /= 2;
             let opt = x % 4;
             x /= 4;
@@ -248,6 +253,10 @@ pub fn run_child(ctx: &Ctx) -> Report {
             w.method = "POST".into();
             w.body = body.to_vec();
             w.headers.push(("Content-Type".into(), ct.to_vec()));
+            w.version = version;
+            if drop_host {
+                w.headers.retain(|h| !h.0.eq_ignore_ascii_case("host"));
+            }
             total(b + i, "request-target-x-form", w, &cfg, &std_prov, st);
         });
         st = st.merge(part);
@@ -962,7 +971,7 @@ pub fn run_child(ctx: &Ctx) -> Report {
     Report {
         stats: st,
         rule: format!(
-            "every case runs under catch_unwind inside a child process whose address space is limited to 12 GiB and whose run time is limited by the parent (abnormal termination, allocation without bound and a case that never returns = violation), with overflow checks and debug assertions on, alternately with log formatting on, against a strict key provider (panics when called without readiness; not ready at once / answer pending for a share of the cases): (a) the C13 defect product on both carriers x {{default,S3,fold}} x 3 requirement sets (incl. non-ASCII and empty names); (b) every printable ASCII byte substituted and inserted at every position of 5 URI templates, every two-character escape %c1c2 over 94^2 in path, query value and query name, 40 special URIs (asterisk-, authority-, absolute-form, truncated escapes, 40-60 kB paths / queries) x 2 carriers x 3 options; (b') 45 request targets of every form (origin, absolute, authority incl. bare host and IPv6, asterisk, empty, fragment, scheme without path) x 6 form bodies x 3 content types x {{default,S3,fold,S3+fold}} x carrier, so that the target is rebuilt under form folding; (c) every byte HeaderValue admits (tab, 0x20-0x7E, 0x80-0xFF) substituted and inserted at every{} position of Authorization / X-Amz-Date / Date / Content-Type / token values; (c') every empty, one-byte and two-byte value of a Content-Type parameter (charset in two spellings, boundary, a trailing parameter; form and JSON types) and of the Credential / SignedHeaders / Signature fields; (c3) Authorization headers made of every sequence of up to 4 (thorough 5) fields over ten kinds (Credential / SignedHeaders / Signature each well-formed, wrong or empty, an unknown parameter, a bare word, an empty field) with ', ' or ',' between them, each with and without the logger formatting its records; (c4) requests with 24574 / 24575 / 24576 distinct header names (the most the http crate admits) and 32700 values of one name, plain and as a folded form POST with Content-Length, under 3 option sets on both carriers; (c'') SignedHeaders lists of 10..104 entries that differ in letter case only, in 7 structured arrangements x 8 rotations and 60 (thorough 400) fixed shuffles per length, on both carriers; (d) bodies of {} lengths (around 21845, 32768, 65535, up to 200000) x 8 fills (expanding bytes, pairs, UTF-8, separators, escapes) x 11 content types x fold x carrier; all 256 one-byte and every {}th two-byte body as a UTF-8 form; {} charset labels x all one-byte, every {}th two-byte and 4 special bodies; (e) 9 capacities x secret lengths 0..100 x 4 fills; (f) every C16 timestamp string on both carriers and through the unstable API; (f') server clocks within 901 s of the smallest and largest DateTime<Utc>, the epoch, years 0 / 1 / 9999 / 10000 and the 32-bit limits x 11 request dates whose UTC year is -1, 0, 9999 or 10000; (f'') an ASCII run of every length 0..300 followed by 2-, 3- and 4-byte characters in each of 11 text inputs (path, climbing path, query value / name, signed header value, access key, session token, date, charset parameter, form value, configured region / service), once in a plausible request and once made to be refused; (g) every subset of set fields of the three builders; (h) every SignatureError shape x 4 messages through Display/Debug/source/code/status/From<Box>; (i) derivation with empty / non-ASCII / 10 kB scopes and NaiveDate::MIN/MAX/year 0/-1/10000; canonicalisation helpers on degenerate and 1 MiB inputs. Oracle: a value or an error, never a panic, abort, hang or non-SignatureError. states = (sweep, outcome class)",
+            "every case runs under catch_unwind inside a child process whose address space is limited to 12 GiB and whose run time is limited by the parent (abnormal termination, allocation without bound and a case that never returns = violation), with overflow checks and debug assertions on, alternately with log formatting on, against a strict key provider (panics when called without readiness; not ready at once / answer pending for a share of the cases): (a) the C13 defect product on both carriers x {{default,S3,fold}} x 3 requirement sets (incl. non-ASCII and empty names); (b) every printable ASCII byte substituted and inserted at every position of 5 URI templates, every two-character escape %c1c2 over 94^2 in path, query value and query name, 40 special URIs (asterisk-, authority-, absolute-form, truncated escapes, 40-60 kB paths / queries) x 2 carriers x 3 options; (b') 45 request targets of every form (origin, absolute, authority incl. bare host and IPv6, asterisk, empty, fragment, scheme without path) x 6 form bodies x 3 content types x {{default,S3,fold,S3+fold}} x carrier x HTTP/1.0, 1.1, 2, 3 x with / without a Host header, so that the target is rebuilt under form folding; (c) every byte HeaderValue admits (tab, 0x20-0x7E, 0x80-0xFF) substituted and inserted at every{} position of Authorization / X-Amz-Date / Date / Content-Type / token values; (c') every empty, one-byte and two-byte value of a Content-Type parameter (charset in two spellings, boundary, a trailing parameter; form and JSON types) and of the Credential / SignedHeaders / Signature fields; (c3) Authorization headers made of every sequence of up to 4 (thorough 5) fields over ten kinds (Credential / SignedHeaders / Signature each well-formed, wrong or empty, an unknown parameter, a bare word, an empty field) with ', ' or ',' between them, each with and without the logger formatting its records; (c4) requests with 24574 / 24575 / 24576 distinct header names (the most the http crate admits) and 32700 values of one name, plain and as a folded form POST with Content-Length, under 3 option sets on both carriers; (c'') SignedHeaders lists of 10..104 entries that differ in letter case only, in 7 structured arrangements x 8 rotations and 60 (thorough 400) fixed shuffles per length, on both carriers; (d) bodies of {} lengths (around 21845, 32768, 65535, up to 200000) x 8 fills (expanding bytes, pairs, UTF-8, separators, escapes) x 11 content types x fold x carrier; all 256 one-byte and every {}th two-byte body as a UTF-8 form; {} charset labels x all one-byte, every {}th two-byte and 4 special bodies; (e) 9 capacities x secret lengths 0..100 x 4 fills; (f) every C16 timestamp string on both carriers and through the unstable API; (f') server clocks within 901 s of the smallest and largest DateTime<Utc>, the epoch, years 0 / 1 / 9999 / 10000 and the 32-bit limits x 11 request dates whose UTC year is -1, 0, 9999 or 10000; (f'') an ASCII run of every length 0..300 followed by 2-, 3- and 4-byte characters in each of 11 text inputs (path, climbing path, query value / name, signed header value, access key, session token, date, charset parameter, form value, configured region / service), once in a plausible request and once made to be refused; (g) every subset of set fields of the three builders; (h) every SignatureError shape x 4 messages through Display/Debug/source/code/status/From<Box>; (i) derivation with empty / non-ASCII / 10 kB scopes and NaiveDate::MIN/MAX/year 0/-1/10000; canonicalisation helpers on degenerate and 1 MiB inputs. Oracle: a value or an error, never a panic, abort, hang or non-SignatureError. states = (sweep, outcome class)",
             if thorough { "" } else { " (every 3rd for Authorization)" }, lens.len(), two_stride, LABELS.len(), label_stride
         ),
         bounds: json!({"cases": base}),
